@@ -224,7 +224,7 @@ def run(ctx):
                           {"entry": o.get("entry"), "file": o.get("file"), "fails": b["fails"],
                            "text": by_entry[o["entry"]]["lines"] if o.get("entry") in by_entry and o["kind"] != "setpar" else None})
     return finish(ctx, "exploration", {
-        "evaluations": len(observed), "distinct_nontrivial": ndecl, "programs": kinds, "declarations": ndecl,
+        "evaluations": len(observed), "distinct_nontrivial": ndecl, "programs": sum(kinds.values()), "programs_by_kind": kinds, "declarations": ndecl,
         "mfront_query_calls": mq.calls, "rejected_observations": len(bad), "obligations_violated": nviol,
         "rule": "declaration lattice: category (material property, state, auxiliary state, external state variable, parameter; "
                 "inputs / output / parameters of laws; outputs / inputs / parameters of models) x type (scalar aliases, Stensor, "
